@@ -485,3 +485,32 @@ Theorem T09_float_f33_fixed :
   float_init_f true [ch_minus; ch_dot; ch_0] = true /\ float_init_f true [ch_plus; ch_0; ch_dot] = true /\ float_init_f true [ch_0] = true.
 Proof. exact f33_fixed. Qed.
 Print Assumptions T09_float_f33_fixed.
+
+(** ** canonical representation of xs:float / xs:double: XMLAbstractDoubleFloat::getCanonicalRepresentation (Model09k)
+    against 3.2.4.2 (Spec09k), on the decimal-scientific model (mantissa * 10^exponent as a rational) *)
+From XV Require Import C09.Spec09k C09.Model09k C09.Proofs09y.
+(** finding F40 (the code as it was, fix40 = false): 0.001 |-> 0.01E-1, which is not canonical (the digit in front of the
+    point is 0) and is not a fixed point (0.01E-1 |-> 0.1E-2) *)
+Theorem T09_float_canon_f40_refuted :
+  exists l c c', float_lex l = true /\ float_canon true false l = Some c /\ float_is_canonical c = false /\
+                 float_canon true false c = Some c' /\ c' <> c.
+Proof. exact float_canon_f40_refuted. Qed.
+Print Assumptions T09_float_canon_f40_refuted.
+(** the repaired code (fixes/C09-double-canonical-leading-zeros.patch) on the witnesses: 1.0E-3, canonical, of the same
+    value, and a fixed point *)
+Theorem T09_float_canon_f40_fixed_witness :
+  float_canon true true lit_0_001 = Some lit_1_0Em3 /\ float_canon_of lit_0_001 lit_1_0Em3 = true /\
+  float_canon true true lit_0_01Em1 = Some lit_1_0Em3 /\ float_canon true true lit_1_0Em3 = Some lit_1_0Em3.
+Proof. exact float_canon_f40_fixed_witness. Qed.
+Print Assumptions T09_float_canon_f40_fixed_witness.
+(** PARTIAL (the invariant behind F40, for all inputs): for every normalised non-zero decimal (= every mantissa that
+    parseDecimal accepts with sign <> 0) and every exponent, the repaired normaliser writes a digit other than 0 in front
+    of the point.  Missing for the full canonical-form theorem: value preservation and the shape of the assembled text
+    (exponent via binToText, trailing zeros) -- both judged by the Spec (float_canon_of) on every run instead. *)
+Theorem T09_float_canon_lead_nonzero_partial : forall d e, dec_norm d -> d_digits d <> [] ->
+  exists c r, fst (fcanon_parts true d e) = c :: r /\ is_digit c = true /\ (c =? ch_0) = false.
+Proof. exact fcanon_lead_nonzero. Qed.
+Print Assumptions T09_float_canon_lead_nonzero_partial.
+Example T09_float_canon_lead_nonvacuous :
+  exists d, dec_parse_raw true lit_0_001 = Ok d /\ d_digits d <> [] /\ fst (fcanon_parts true d 0%Z) = [0x31%N].
+Proof. exact fcanon_lead_nonvacuous. Qed.
